@@ -4,7 +4,7 @@
 
 use crate::glue;
 use crate::monitor::panic::{catch, Ended, PanicInfo};
-use crate::monitor::reader::{ContractReader, RLog, ReentrantReader, SeamReader, SegmentedReader, VirtualTailReader};
+use crate::monitor::reader::{ContractReader, RLog, ReentrantReader, SeamReader, SegmentedReader, VirtualTailReader, WipingBuf};
 use crate::monitor::writer::{BoundedWriter, OffsetWriter, RecordingWriter, WEvent};
 use crate::spec::model::*;
 use rl2tp::avp::types as t;
@@ -53,6 +53,8 @@ pub enum Rk {
     Reentrant(u64),
     /// the input followed by that many virtual zero octets
     VirtualTail(usize),
+    /// contract reader whose `T` is a lease that wipes its octets when dropped
+    Wiping,
 }
 
 pub const ALL_READERS: [Rk; 4] = [Rk::Slice, Rk::ContractSlice, Rk::ContractVec, Rk::Segmented(3)];
@@ -155,6 +157,19 @@ pub fn decode_msg(b: &[u8], o: Option<SOpts>, rk: Rk) -> Run<SMsg> {
             });
             finish(e, Some(log), |m| m)
         }
+        Rk::Wiping => {
+            let log = RLog::new(boxed.len());
+            let l2 = log.clone();
+            let e = catch(|| {
+                let mut r: ContractReader<WipingBuf> = ContractReader::new(&boxed, l2);
+                let res = match o {
+                    Some(o) => Message::<WipingBuf>::try_read_validate(&mut r, glue::opts(o)),
+                    None => Message::<WipingBuf>::try_read(&mut r),
+                };
+                (res.map(|m| glue::msg_to_spec(&m)), r.remaining())
+            });
+            finish(e, Some(log), |m| m)
+        }
         Rk::VirtualTail(tail) => {
             let e = catch(|| {
                 let mut r = VirtualTailReader::new(&boxed, tail);
@@ -180,11 +195,11 @@ pub fn decode_avps(b: &[u8], rk: Rk) -> Run<AvpList> {
     let (placed_box, shift) = placed(b);
     let boxed: &[u8] = &placed_box[shift..];
     let rk = match rk {
-        Rk::Reentrant(_) | Rk::VirtualTail(_) => Rk::ContractVec,
+        Rk::Reentrant(_) | Rk::VirtualTail(_) | Rk::Wiping => Rk::ContractVec,
         k => k,
     };
     match rk {
-        Rk::Reentrant(_) | Rk::VirtualTail(_) => unreachable!(),
+        Rk::Reentrant(_) | Rk::VirtualTail(_) | Rk::Wiping => unreachable!(),
         Rk::Slice => {
             let e = catch(|| {
                 let mut r = SliceReader::from(&boxed);
@@ -281,11 +296,11 @@ pub fn decode_type(attr: u16, payload: &[u8], rk: Rk) -> Option<Run<SAvp>> {
     let boxed: &[u8] = &placed_box[shift..];
     let one = |r: Result<AVP, DecodeError>| r.map(|a| glue::avp_to_spec(&a)).map_err(|e| vec![e]);
     let rk = match rk {
-        Rk::Reentrant(_) | Rk::VirtualTail(_) => Rk::ContractVec,
+        Rk::Reentrant(_) | Rk::VirtualTail(_) | Rk::Wiping => Rk::ContractVec,
         k => k,
     };
     Some(match rk {
-        Rk::Reentrant(_) | Rk::VirtualTail(_) => unreachable!(),
+        Rk::Reentrant(_) | Rk::VirtualTail(_) | Rk::Wiping => unreachable!(),
         Rk::Slice => {
             let e = catch(|| {
                 let mut r = SliceReader::from(&boxed);
@@ -347,6 +362,9 @@ pub enum Wk {
     Presized(usize),
     /// VecWriter that has been used for something else and cleared (a recycled buffer)
     Reused,
+    /// fresh VecWriter, but the encode runs inside a destructor while the thread is unwinding
+    /// from an unrelated panic (a session object saying goodbye from its `Drop`)
+    WhileUnwinding,
 }
 
 pub enum EncOut {
@@ -369,8 +387,48 @@ pub enum Item<'a> {
     Avp(&'a AVP),
 }
 
+struct EncodeOnDrop<'a, 'b> {
+    prefix: &'a [u8],
+    items: &'a [Item<'b>],
+    out: &'a std::cell::RefCell<Option<Result<Vec<u8>, crate::monitor::panic::PanicInfo>>>,
+}
+
+impl<'a, 'b> Drop for EncodeOnDrop<'a, 'b> {
+    fn drop(&mut self) {
+        // runs during unwinding: std::thread::panicking() is true here
+        let (prefix, items) = (self.prefix, self.items);
+        let r = std::panic::catch_unwind(std::panic::AssertUnwindSafe(|| {
+            let mut w = VecWriter::new();
+            w.write_bytes(prefix);
+            for it in items {
+                match it {
+                    Item::Msg(m) => m.write(&mut w),
+                    Item::Avp(a) => a.write(&mut w),
+                }
+            }
+            w.data
+        }));
+        *self.out.borrow_mut() = Some(r.map_err(|_| crate::monitor::panic::PanicInfo { message: "encode refused while unwinding".into(), file: "?".into(), line: 0 }));
+    }
+}
+
+struct UnrelatedPanic;
+
 pub fn encode_items(prefix: &[u8], items: &[Item], wk: Wk) -> EncOut {
+    if wk == Wk::WhileUnwinding {
+        let out = std::cell::RefCell::new(None);
+        let _ = std::panic::catch_unwind(std::panic::AssertUnwindSafe(|| {
+            let _guard = EncodeOnDrop { prefix, items, out: &out };
+            std::panic::panic_any(UnrelatedPanic);
+        }));
+        return match out.into_inner() {
+            Some(Ok(bytes)) => EncOut::Ok(Encoded { bytes, events: vec![] }),
+            Some(Err(p)) => EncOut::Panic(p),
+            None => EncOut::Panic(crate::monitor::panic::PanicInfo { message: "guard did not run".into(), file: "?".into(), line: 0 }),
+        };
+    }
     match wk {
+        Wk::WhileUnwinding => unreachable!(),
         Wk::Vec | Wk::Presized(_) | Wk::Reused => {
             let e = catch(|| {
                 let mut w = match wk {
@@ -576,4 +634,11 @@ pub fn provoke_failures(r: &mut crate::gen::Rng) {
             }
         }
     }
+}
+
+/// Hidden AVP whose value vector has spare capacity behind its length (a truncated or reused Vec).
+pub fn hidden_spare(attr: u16, value: &[u8], spare: usize) -> AVP {
+    let mut v = Vec::with_capacity(value.len() + spare);
+    v.extend_from_slice(value);
+    AVP::Hidden(t::Hidden { attribute_type: attr, value: v })
 }
